@@ -9,44 +9,37 @@
    FULL-STRENGTH STATEMENT (false of the code, kept visible):
      forall t, deliver_wf t -> sms_remarshal (layout_deliver t) = Ok (layout_deliver t)
      forall t, submit_wf t  -> sms_remarshal (layout_submit t)  = Ok (layout_submit t)
-   It is refuted by the witnesses C19_*_refuted below; the proved theorems carry exactly the
-   exclusion predicates KNOWN_FINDINGS.txt lists:
-     D24  d_udhi t = true \/ d_rp t = true                 (SMS-DELIVER bits 6, 7)
-     D19  t_zneg (time stamp / absolute VP) = true          (negative zone)
-     D22  ud_ends_in_zero (last user-data octet is 0x00)
-     D21  alphanumeric address whose useful semi-octet count (7n+3)/4 is odd (n = 4..7 of 1..11)
-   PARTIAL (what is missing): for ALPHANUMERIC addresses the theorems cover texts of the basic
-   character table without CR and without the escape code ([plain]); alphanumeric addresses that
-   contain CR or an extension-table character (ESC + code: [ ] { } \ ~ ^ | euro, form feed) are in
-   the quantifier of C19 but not in these theorems.  (The harness compares model and code on
-   alphanumeric addresses on every run.)  Numeric addresses: all of 1..20 digits, any TON <> 5, any NPI.
-   [addr_rt_ok a] is [True] for a numeric address and [plain text /\ even useful-semi-octet count]
-   for an alphanumeric one; [addr_dec_ok a] is [True] / [plain text /\ septet count mod 8 <> 7]. *)
+   After the repairs D19, D20, D21 (length octet), D22, D23, D24 the only exclusion left is
+   [addr_ok] on the TP-OA / TP-DA, which is [True] for a numeric address and for an alphanumeric one
+   (any text of the GSM 03.38 repertoire: default alphabet incl. CR, extension characters as ESC + code,
+   1..11 septets) says
+       septet count mod 8 <> 7                  (known: address/alphanumeric-8k+7-septets-…, the rest of D21)
+       not (septet count mod 8 = 0 and last septet = CR)
+                                                (known: address/alphanumeric-8-septets-ending-in-cr-…)
+   Within 1..11 septets these are exactly: 7 septets; 8 septets ending in CR.  Both are refuted below.
+   For the decoded TEXT of an alphanumeric address there is additionally D16 (code 0x09), stated as the
+   hypothesis [~ In 9 ss] of C19_address_text_is_standard. *)
 From V Require Import Model.TpduRun Spec.Gsm0340 Gen.SmsOctets Proofs.SmsOctetTables Proofs.TpduAlnum Proofs.TpduRoundtrip.
 Open Scope N_scope.
 
-(* ---- round trip, octet for octet *)
-Theorem C19_deliver_roundtrip_partial :
+(* ---- round trip, octet for octet: any first octet, any PID / DCS, any zone sign, any validity period
+   format, user data of any content (trailing zero octets included) *)
+Theorem C19_deliver_roundtrip :
   forall t : s_deliver,
-    deliver_wf t -> addr_rt_ok (d_oa t) ->         (* not D21 *)
-    d_udhi t = false -> d_rp t = false ->          (* not D24 *)
-    t_zneg (d_scts t) = false ->                   (* not D19 *)
-    ~ ud_ends_in_zero (d_ud t) ->                  (* not D22 *)
+    deliver_wf t -> addr_ok (d_oa t) ->
     sms_remarshal (layout_deliver t) = Ok (layout_deliver t).
 Proof. exact deliver_roundtrip. Qed.
 
-Theorem C19_submit_roundtrip_partial :
+Theorem C19_submit_roundtrip :
   forall t : s_submit,
-    submit_wf t -> addr_rt_ok (s_da t) ->          (* not D21 *)
-    vp_known_ok (s_vp t) ->                        (* not D19: an absolute validity period has a non-negative zone *)
-    ~ ud_ends_in_zero (s_ud t) ->                  (* not D22 *)
+    submit_wf t -> addr_ok (s_da t) ->
     sms_remarshal (layout_submit t) = Ok (layout_submit t).
 Proof. exact submit_roundtrip. Qed.
 
-(* ---- the decoded structure carries the standard's values (holds also inside D22 and D24) *)
-Theorem C19_deliver_values_partial :
+(* ---- the decoded structure carries the standard's values *)
+Theorem C19_deliver_values :
   forall t : s_deliver,
-    deliver_wf t -> addr_dec_ok (d_oa t) -> t_zneg (d_scts t) = false ->
+    deliver_wf t -> addr_ok (d_oa t) ->
     exists fl sc oa ts ud,
       sms_unmarshal (layout_deliver t) =
         Ok ("Deliver"%string, [TVAddr sc; TVFlags fl; TVAddr oa; TVByte (d_pid t); TVByte (d_dcs t); TVTime ts; TVBytes ud]) /\
@@ -57,9 +50,9 @@ Theorem C19_deliver_values_partial :
       ud = ud_octets (d_ud t) ++ repeat 0 (N.to_nat (udl (d_ud t)) - List.length (ud_octets (d_ud t))).
 Proof. exact deliver_values. Qed.
 
-Theorem C19_submit_values_partial :
+Theorem C19_submit_values :
   forall t : s_submit,
-    submit_wf t -> addr_dec_ok (s_da t) -> vp_known_ok (s_vp t) ->
+    submit_wf t -> addr_ok (s_da t) ->
     exists fl da v ud,
       sms_unmarshal (layout_submit t) =
         Ok ("Submit"%string, [TVAddr addr0; TVFlags fl; TVByte (s_mr t); TVAddr da; TVByte (s_pid t); TVByte (s_dcs t); TVVP v; TVBytes ud]) /\
@@ -71,12 +64,20 @@ Theorem C19_submit_values_partial :
       ud = ud_octets (s_ud t) ++ repeat 0 (N.to_nat (udl (s_ud t)) - List.length (ud_octets (s_ud t))).
 Proof. exact submit_values. Qed.
 
-(* the address text of an alphanumeric address is read in the 7-bit table of the running code; that
-   table is GSM 03.38 6.2.1 on every code except 0x09 (D16: U+00E7 for U+00C7) and the escape code *)
+(* [addr_text_spec] reads an alphanumeric address in the tables of the running code; those give the
+   standard's characters (GSM 03.38 6.2.1 default alphabet and 6.2.1.1 extension table) unless code
+   0x09 occurs (D16: U+00E7 for U+00C7) *)
+Theorem C19_address_text_is_standard :
+  forall a, addr_wf a ->
+    match sa_val a with
+    | Digits ds => addr_text_spec a = ascii_digits ds
+    | Alnum ss => ~ In 9 ss -> addr_text_spec a = gsm_text ss
+    end.
+Proof. exact addr_text_standard. Qed.
 Theorem C19_alphabet_table : forall s, s < 128 -> s <> 9 -> s <> ESC -> g7_rune s = gsm_char s.
 Proof. exact alphabet_table. Qed.
-Theorem C19_alphabet_09_refuted : g7_rune 9 = 231 /\ gsm_char 9 = 199.
-Proof. exact alphabet_09_refuted. Qed.
+Theorem C19_extension_table : g7_esc g7_table = gsm_extension.
+Proof. exact g7_esc_is_spec. Qed.
 (* bit-level unpack / pack of the code against the arithmetic packing of the standard, any length *)
 Theorem C19_unpack_pack7 : forall ss, Forall (fun s => s < 128) ss -> (List.length ss mod 8 <> 7)%nat -> ta_unpack (pack7 ss) = ss.
 Proof. exact unpack_pack7. Qed.
@@ -92,8 +93,6 @@ Theorem C19_calendar :
 Proof. exact go_date_valid. Qed.
 
 (* ---- complete tables from the running code *)
-(* all 256 relative validity periods: the code's duration is the standard's (whole seconds) and
-   the octet is written back unchanged; the table has one row per octet *)
 Theorem C19_vp_table :
   map (fun r => fst (fst (fst r))) rel_vp_table = oct256 /\
   forall b, b < 256 -> In (b, rel_seconds b, 0, b) rel_vp_table.
@@ -101,66 +100,81 @@ Proof. exact (conj rel_vp_table_complete rel_vp_table_spec). Qed.
 Theorem C19_vp_model : forall b, b < 256 -> rel_dur b = rel_seconds b /\ rel_octet (rel_dur b) = b.
 Proof. exact rel_model. Qed.
 
-(* all 256 first octets through SubmitFlags and DeliverFlags of the running code *)
+(* all 256 first octets through SubmitFlags and DeliverFlags of the running code: the standard's bit
+   fields, written back unchanged *)
 Theorem C19_first_octet_table :
   (forall b, b < 256 -> exists vals, In (b, vals, b) submit_flags_table /\
       vals = [2 * (b mod 4); (b / 4) mod 2; (b / 8) mod 4; (b / 32) mod 2; (b / 64) mod 2; (b / 128) mod 2]) /\
-  (forall b, b < 256 -> exists vals, In (b, vals, b mod 64) deliver_flags_table /\
-      vals = [2 * (b mod 4); (b / 4) mod 2; (b / 8) mod 2; (b / 16) mod 2; (b / 32) mod 2]).
+  (forall b, b < 256 -> exists vals, In (b, vals, b) deliver_flags_table /\
+      vals = [2 * (b mod 4); (b / 4) mod 2; (b / 8) mod 2; (b / 16) mod 2; (b / 32) mod 2; (b / 64) mod 2; (b / 128) mod 2]).
 Proof. exact first_octet_tables. Qed.
-(* the model reproduces every row of the four first-octet / indicator tables *)
 Theorem C19_first_octet_model :
-  forallb (flag_row_ok fs_DeliverFlags 63) deliver_flags_table = true /\
+  forallb (flag_row_ok fs_DeliverFlags 255) deliver_flags_table = true /\
   forallb (flag_row_ok fs_SubmitFlags 255) submit_flags_table = true /\
   forallb (flag_row_ok fs_Flags 3) flags_table = true /\
   forallb (flag_row_ok fs_ParameterIndicator 7) pi_table = true.
 Proof. exact (conj deliver_flags_table_ok (conj submit_flags_table_ok (conj flags_table_ok pi_table_ok))). Qed.
+(* all 256 data coding schemes: whether Marshal takes TP-UDL for a septet count is GSM 03.38 section 4 *)
+Theorem C19_dcs_table :
+  map fst dcs_table = oct256 /\ forall d, d < 256 -> In (d, dcs_counts_septets d) dcs_table.
+Proof. exact (conj dcs_table_complete dcs_table_spec). Qed.
 
-(* ---- witnesses for the known classes (each a well-formed value of the quantifier) *)
-Theorem C19_deliver_udhi_refuted :      (* D24 *)
-  deliver_wf w_d24 /\ d_udhi w_d24 = true /\ sms_remarshal (layout_deliver w_d24) <> Ok (layout_deliver w_d24) /\
-  exists out, sms_remarshal (layout_deliver w_d24) = Ok out /\ nth 8 out 0 = 4 /\ nth 8 (layout_deliver w_d24) 0 = 68.
-Proof. exact deliver_udhi_refuted. Qed.
-Theorem C19_first_octet_table_refuted : exists vals, In (64, vals, 0) deliver_flags_table.   (* D24 on the code's own table *)
-Proof. exact deliver_first_octet_refuted. Qed.
-Theorem C19_negative_zone_refuted :     (* D19 *)
-  deliver_wf (w_d19 20) /\ deliver_wf (w_d19 1) /\
-  sms_remarshal (layout_deliver (w_d19 20)) <> Ok (layout_deliver (w_d19 20)) /\
-  (exists vs x, sms_unmarshal (layout_deliver (w_d19 1)) = Ok ("Deliver"%string, vs) /\ nth_error vs 5 = Some (TVTime x) /\
-     snd (time_civil x) = 81%Z /\ time_offset_q (d_scts (w_d19 1)) = (-1)%Z).
-Proof. exact deliver_negative_zone_refuted. Qed.
-Theorem C19_absolute_vp_negative_zone_refuted :
-  submit_wf w_d19_vp /\ sms_remarshal (layout_submit w_d19_vp) <> Ok (layout_submit w_d19_vp).
-Proof. exact submit_negative_zone_refuted. Qed.
-Theorem C19_trailing_zero_refuted :     (* D22 *)
-  submit_wf w_d22 /\ ud_ends_in_zero (s_ud w_d22) /\
-  sms_remarshal (layout_submit w_d22) = Ok (removelast (layout_submit w_d22)).
-Proof. exact trailing_zero_refuted. Qed.
-Theorem C19_alnum_odd_refuted :         (* D21 *)
-  submit_wf w_d21 /\ nth 3 (layout_submit w_d21) 0 = 7 /\
-  exists out, sms_remarshal (layout_submit w_d21) = Ok out /\ nth 3 out 0 = 8.
-Proof. exact alnum_odd_refuted. Qed.
+(* ---- witnesses for the known classes that remain (each a well-formed value of the quantifier) *)
+Theorem C19_alnum_seven_septets_refuted :
+  submit_wf w_d21 /\ nth 3 (layout_submit w_d21) 0 = 13 /\
+  sms_remarshal (layout_submit w_d21) <> Ok (layout_submit w_d21) /\
+  exists out vs, sms_remarshal (layout_submit w_d21) = Ok out /\ nth 3 out 0 = 14 /\
+    sms_unmarshal (layout_submit w_d21) = Ok ("Submit"%string, vs) /\
+    nth_error vs 3 = Some (TVAddr {| a_npi := 1; a_ton := 5; a_no := [109; 101; 115; 115; 97; 103; 101; 64] |}).
+Proof. exact alnum_seven_septets_refuted. Qed.
+Theorem C19_alnum_eight_septets_cr_refuted :
+  submit_wf w_cr8 /\ ends_in_filler_cr [109; 101; 115; 115; 97; 103; 101; 13] /\
+  sms_remarshal (layout_submit w_cr8) = Ok (layout_submit w_cr8) /\
+  exists vs, sms_unmarshal (layout_submit w_cr8) = Ok ("Submit"%string, vs) /\
+    nth_error vs 3 = Some (TVAddr {| a_npi := 1; a_ton := 5; a_no := [109; 101; 115; 115; 97; 103; 101] |}) /\
+    gsm_text [109; 101; 115; 115; 97; 103; 101; 13] = [109; 101; 115; 115; 97; 103; 101; 13].
+Proof. exact alnum_eight_septets_cr_refuted. Qed.
+Theorem C19_alphabet_09_refuted : g7_rune 9 = 231 /\ gsm_char 9 = 199 /\ code_text [9] <> gsm_text [9].
+Proof. exact alphabet_09_refuted. Qed.
 
 (* ---- the repaired defects, on the pre-repair variants of the model *)
-Theorem C19_relative_vp_legacy_refuted :   (* D23 *)
+Theorem C19_zone_sign_legacy_refuted :            (* D19 *)
+  zone_of true 10 (lo4 10 * 10 + hi4 10) = (false, 100) /\ zone_of false 10 (lo4 10 * 10 + hi4 10) = (true, 20).
+Proof. exact zone_sign_legacy_refuted. Qed.
+Theorem C19_trailing_zero_legacy_refuted :        (* D22 *)
+  trim_right0 [65; 0] = [65] /\ ud_octets (UdOctets [65; 0]) = [65; 0].
+Proof. exact trailing_zero_legacy_refuted. Qed.
+Theorem C19_deliver_first_octet_legacy_refuted :  (* D24 *)
+  marshal_flags deliver_fields_legacy (unmarshal_flags deliver_fields_legacy 64 0) 0 = 0 /\
+  marshal_flags (fs_fields fs_DeliverFlags) (unmarshal_flags (fs_fields fs_DeliverFlags) 64 0) 0 = 64.
+Proof. exact deliver_first_octet_legacy_refuted. Qed.
+Theorem C19_alnum_length_legacy_refuted :         (* D21, length octet *)
+  addr_write_legacy_len {| a_npi := 0; a_ton := 5; a_no := [73; 110; 102; 111] |} 4 = 8 /\
+  hd 0 (addr_write g7_table {| a_npi := 0; a_ton := 5; a_no := [73; 110; 102; 111] |}) = 7 /\
+  hd 0 (tp_addr {| sa_ton := 5; sa_npi := 0; sa_val := Alnum [73; 110; 102; 111] |}) = 7.
+Proof. exact alnum_length_legacy_refuted. Qed.
+Theorem C19_relative_vp_legacy_refuted :          (* D23 *)
   rel_octet_gen true (rel_dur 144) = 149 /\ rel_octet (rel_dur 144) = 144.
 Proof. exact rel_octet_legacy_refuted. Qed.
-Theorem C19_numeric_length_legacy_refuted :   (* D20 *)
+Theorem C19_numeric_length_legacy_refuted :       (* D20 *)
   addr_write_legacy_len (addr_num_val w_oa (digits_of w_oa)) 5 = 9 /\
   hd 0 (addr_write g7_table (addr_num_val w_oa (digits_of w_oa))) = 10 /\ hd 0 (tp_addr w_oa) = 10.
 Proof. exact numeric_length_legacy_refuted. Qed.
 
-(* ---- non-vacuity: well-formed values outside every known class (ten-digit address with leading
-   zeros, leap day, 12 h 30 min relative validity period) satisfy the hypotheses *)
+(* ---- non-vacuity: well-formed values INSIDE every class that was a known finding before the repairs
+   (TP-UDHI and TP-RP set, zone -5 h, zone minus zero in an absolute VP, user data ending in 0x00) and an
+   alphanumeric address with extension characters and a CR satisfy the hypotheses *)
 Example C19_example_deliver :
   sms_remarshal (layout_deliver w_deliver) = Ok (layout_deliver w_deliver) /\
-  layout_deliver w_deliver = hx "07911326040000F0240A91009471008900004220923295858009C8329BFD06DDDF72".
+  layout_deliver w_deliver = hx "07911326040000F0E40A91009471008900004220923295850A09C8329BFD06DD0100".
 Proof. exact w_deliver_example. Qed.
-Example C19_example_alnum :
-  sms_remarshal (layout_submit w_alnum_ok) = Ok (layout_submit w_alnum_ok) /\
-  layout_submit w_alnum_ok = hx "0001070ED0D637396C7EBBCB00040401020304".
-Proof. exact w_alnum_example. Qed.
 Example C19_example_submit :
   sms_remarshal (layout_submit w_submit) = Ok (layout_submit w_submit) /\
-  layout_submit w_submit = hx "00D5070A91009471008900049003010203".
+  layout_submit w_submit = hx "00DD070A91009471008900042080629173140803410000".
 Proof. exact w_submit_example. Qed.
+Example C19_example_alnum :
+  sms_remarshal (layout_submit w_alnum_ok) = Ok (layout_submit w_alnum_ok) /\
+  layout_submit w_alnum_ok = hx "0011070BD01B5EB0B129030004900401020304" /\
+  exists vs, sms_unmarshal (layout_submit w_alnum_ok) = Ok ("Submit"%string, vs) /\
+             nth_error vs 3 = Some (TVAddr {| a_npi := 0; a_ton := 5; a_no := [91; 65; 13; 8364] |}).
+Proof. exact w_alnum_example. Qed.
